@@ -348,6 +348,9 @@ func (e *SupportedPointsExtension) Read(b []byte) (int, error) {
 	if len(b) < e.Len() {
 		return 0, io.ErrShortBuffer
 	}
+	if len(e.SupportedPoints) > 255 {
+		return 0, errors.New("too many supported point formats")
+	}
 	// http://tools.ietf.org/html/rfc4492#section-5.5.2
 	b[0] = byte(extensionSupportedPoints >> 8)
 	b[1] = byte(extensionSupportedPoints)
@@ -708,6 +711,11 @@ func (e *applicationSettingsExtension) Len(supportedProtocols []string) int {
 func (e *applicationSettingsExtension) Read(b []byte, supportedProtocols []string) (int, error) {
 	if len(b) < e.Len(supportedProtocols) {
 		return 0, io.ErrShortBuffer
+	}
+	for _, s := range supportedProtocols {
+		if len(s) > 255 {
+			return 0, errors.New("application settings protocol name too long")
+		}
 	}
 
 	// Read Type.
@@ -1649,6 +1657,9 @@ func (e *RenegotiationInfoExtension) Read(b []byte) (int, error) {
 	if len(b) < e.Len() {
 		return 0, io.ErrShortBuffer
 	}
+	if len(e.RenegotiatedConnection) > 255 {
+		return 0, errors.New("renegotiated connection too long")
+	}
 
 	dataLen := len(e.RenegotiatedConnection)
 	extBodyLen := 1 + dataLen
@@ -1811,6 +1822,9 @@ func (e *FakeTokenBindingExtension) Len() int {
 func (e *FakeTokenBindingExtension) Read(b []byte) (int, error) {
 	if len(b) < e.Len() {
 		return 0, io.ErrShortBuffer
+	}
+	if len(e.KeyParameters) > 255 {
+		return 0, errors.New("too many token binding key parameters")
 	}
 	dataLen := e.Len() - 4
 	b[0] = byte(fakeExtensionTokenBinding >> 8)
